@@ -302,6 +302,80 @@ def check_item_loops(P, R):
     R.floor(rule, "per-item loops", nloops, 12)
 
 
+# parsers that append to a caller-held state record (argument index of the state): what they have collected for one item must be
+# dropped before the next item on every path
+ACCUM = {"dt_io_strpdtdur": 0}
+
+
+def check_state_reset(P, R):
+    """RF8-state: in a per-item loop, a parser state that lives outside the loop and is handed to an accumulating parser is reset on
+    every path through the loop body (not only on the path that used what was collected)"""
+    rule = "RF8-state"
+    n = 0
+    for t in P.tus:
+        if t.obj.startswith(EXEMPT_OBJ):
+            continue
+        for fn in t.funclist:
+            if getattr(fn, "body", None) is None:
+                continue
+            for lp in _loops(fn):
+                if not any(x.get("k") == "CallExpr" and x.get("callee") == "prchunk_getline" for x in walk(lp)):
+                    continue
+                inner_decl = {v["d"] for x in walk(lp) if x.get("k") == "DeclStmt" for v in kids(x) if v.get("k") == "Var"}
+                states = {}
+                for c in walk(lp):
+                    if c.get("k") == "CallExpr" and c.get("callee") in ACCUM:
+                        a = strip(call_args(c)[ACCUM[c["callee"]]])
+                        if a is not None and a.get("k") == "UnaryOperator" and a.get("op") == "&":
+                            v = strip(a["c"][0])
+                            if v is not None and v.get("k") == "DeclRefExpr" and v.get("d") not in inner_decl:
+                                states[v["d"]] = v.get("n")
+                if not states:
+                    continue
+                cfg = fn.cfg
+                fn.nodes
+
+                def blk(node):
+                    cur = node
+                    while cur is not None:
+                        if "i" in cur:
+                            sb = cfg.stmt_block(cur["i"])
+                            if sb is not None:
+                                return sb[0]
+                        cur = fn.parent(cur)
+                    return None
+                body = lp["c"][-1]
+                first = kids(body)[0] if body.get("k") == "CompoundStmt" and kids(body) else body
+                entry = blk(first)
+                cond = lp["c"][1] if lp["k"] == "ForStmt" else lp["c"][0]
+                head = blk(cond) if cond is not None else None
+                for did, name in states.items():
+                    n += 1
+                    R.saw(fn)
+                    resets = []
+                    for x in walk(body):
+                        if x.get("k") == "BinaryOperator" and x.get("op") == "=" and const_of(x["c"][1]) == 0:
+                            l = strip(x["c"][0])
+                            if l is not None and l.get("k") == "MemberExpr" and (strip(l["c"][0]) or {}).get("d") == did:
+                                resets.append(x)
+                        if x.get("k") == "CallExpr" and x.get("callee") == "memset" and any(y.get("k") == "DeclRefExpr" and y.get("d") == did for y in walk(x)):
+                            resets.append(x)
+                    site = "%s: state `%s` of the loop at line %s" % (fn.name, name, lp.get("l"))
+                    if entry is None or head is None:
+                        raise AnalysisBroken("%s: loop blocks of %s not found" % (rule, fn.name))
+                    rb = {blk(x) for x in resets}
+                    # a turn of the loop that never passes a reset: from the body's entry to the loop's test avoiding the reset blocks
+                    around = head in cfg.reachable_from(entry, avoid=rb) if entry not in rb else False
+                    if resets and not around:
+                        R.ob(rule, "%s is reset on every path through the body" % site, True)
+                    else:
+                        R.finding(rule, fn, site, "the parser state `%s` collects durations for one line; %s, so what a rejected line has "
+                                  "collected is added to the next line's result: the output for a line depends on the lines before it"
+                                  % (name, "it is never reset in the loop" if not resets else "a path through the loop body leads back to "
+                                     "the loop's test without passing the reset (line %s)" % resets[0].get("l")), resets[0] if resets else lp)
+    R.floor(rule, "parser states held across a per-item loop", n, 1)
+
+
 def _loop_kind(lp):
     return {"ForStmt": "for", "WhileStmt": "while", "DoStmt": "do"}[lp["k"]]
 
@@ -453,6 +527,7 @@ def check(P, R, tier):
     check_cache(P, R)
     check_generation(P, R)
     check_item_loops(P, R)
+    check_state_reset(P, R)
 
 
 LEVEL = ("Structural decision that there is no hidden state: closed inventory of all written static-storage objects with "
